@@ -247,6 +247,8 @@ func evalCons(c cons, v string) int {
 		return tri(re.MatchString(v), true)
 	case "even": // custom constraint registered by the harness: even length
 		return tri(len(v)%2 == 0, true)
+	case "lower": // custom constraint registered by the harness: no upper-case ASCII letter
+		return tri(v == strings.ToLower(v), true)
 	}
 	return 0
 }
@@ -278,6 +280,9 @@ var consPool = []consSpec{
 	// regex bodies stay inside what the docs show: no ',' ';' or routing characters
 	{c: cons{Kind: "regex", Args: []string{`^[0-9]{4}$`}}, good: []string{"2022", "0001"}, bad: []string{"22", "abcd", "20222", "202x"}},
 	{c: cons{Kind: "even"}, good: []string{"ab", "abcd", "12"}, bad: []string{"a", "abc", "12345"}},
+	// letter-case sensitive constraints: the value is judged as the client spelled it
+	{c: cons{Kind: "regex", Args: []string{`^[a-z]{2}$`}}, good: []string{"ab", "xy"}, bad: []string{"AB", "Ab", "aB", "a1", "abc"}},
+	{c: cons{Kind: "lower"}, good: []string{"ab", "x1", "news"}, bad: []string{"AB", "News", "xY"}},
 }
 
 // evenConstraint is the custom constraint the harness registers on every app of the
@@ -287,6 +292,14 @@ type evenConstraint struct{}
 func (evenConstraint) Name() string { return "even" }
 func (evenConstraint) Execute(param string, _ ...string) bool {
 	return len(param)%2 == 0
+}
+
+// lowerConstraint: a second custom constraint, sensitive to letter case.
+type lowerConstraint struct{}
+
+func (lowerConstraint) Name() string { return "lower" }
+func (lowerConstraint) Execute(param string, _ ...string) bool {
+	return param == strings.ToLower(param)
 }
 
 // genConsToken picks 1–2 compatible constraints and returns them with value pools that
